@@ -11,7 +11,9 @@ INTS = [0, 1, -1, 2, 127, 128, 255, 256, 257, 65535, 65536, 65537, 2**31 - 1, 2*
 FLOATS = [0.0, -0.0, 1.5, -2.25, 1e300, 5e-324, float("inf"), float("-inf")]
 STRS = ["", "a", "abc", "123", "-7", "0x1f", "1.5", "é", "ÿĀ", "中文",
         "\U0001f600", "a\nb", "a\rb", "\\", "\\n", "'", '"', "'\"", "\x00", "\x1a", "\x7f\x80",
-        "tab\there", " lead", "trail ", "x" * 255, "x" * 256, "é" * 128, "\ud800"]
+        "tab\there", " lead", "trail ", "x" * 255, "x" * 256, "é" * 128,
+        "\\u0041", "caf\\u00e9", "\\U0001f600", "\\x41", "\\N{DASH}", "\\\\u0041", "C:\\users\\new", "%s %d", "{0}{name}",
+        "$HOME `id`", "\\", "a\\", "\\u", "\\u00", "\ud800"]
 BYTESES = [b"", b"a", b"123", b"\x00", b"\xff", b"\n", b"'\"\\", b"a" * 255, b"a" * 256, b"\x80abc"]
 
 
